@@ -409,6 +409,25 @@ def fr3(ctx):
             if zcs.name.endswith('::ne'):
                 zte, zfe = zfe, zte
             zeros.append((zbi, zc, zte, zfe, zcs))
+        # `bytes.iter().all(|b| *b == 0)` / `!bytes.iter().any(|b| *b != 0)`
+        def byte_pred(cb_):
+            """'eq0' / 'ne0' when closure body cb_ returns `<its argument> == 0` / `!= 0`"""
+            for (p_, kind, data) in cb_.defs.get(0, []):
+                if kind == 'assign' and data['rv']['k'] == 'binop' and data['rv']['op'] in ('Eq', 'Ne'):
+                    a_, b_ = data['rv']['a'], data['rv']['b']
+                    if op_const_bits(b_) == 0 or op_const_bits(a_) == 0:
+                        return 'eq0' if data['rv']['op'] == 'Eq' else 'ne0'
+            return None
+        for (zbi, zc, zte, zfe, zcs) in b.switches_on_call(lambda c: re.search(r'Iterator>::(all|any)(::<.*>)?$', c.name) is not None and 'u8' in c.name):
+            blk_ = b.points[zcs.point][0]
+            for (p_, fj) in b.fn_values:
+                if b.pstart[blk_] <= p_ <= zcs.point and fj.get('node') in ctx.f.bodies:
+                    bp = byte_pred(ctx.f.bodies[fj['node']])
+                    is_all = re.search(r'Iterator>::all', zcs.name) is not None
+                    if bp == 'eq0' and is_all:
+                        zeros.append((zbi, zc, zte, zfe, zcs))
+                    elif bp == 'ne0' and not is_all:
+                        zeros.append((zbi, zc, zfe, zte, zcs))
         na = [e for e in b.exits() if e['kind'] == 'err' and e.get('variant') == 'NotAvailable']
         for e in na:
             ok = any(b.edge_dominates(te, e['point']) for (_bi, _c, te, _fe, _cs) in zeros)
